@@ -155,7 +155,7 @@ def row(draw, lay):
     sub = draw(st.sampled_from([None] * 8 + [1, 4, 5, 9]))
     if sub and draw(st.booleans()):
         cents = draw(st.sampled_from([0, 0, 1, -1, 99]))  # amounts below one cent are amounts too: 0.004, 0.019, -0.011
-    r = {'kind': kind, 'date': d.isoformat(), 'date_pad': draw(st.sampled_from(['', '', '', ' ', '  '])), 'unpadded': draw(st.booleans()), 'cents': cents, 'sub': sub, 'style': draw(amount_style),
+    r = {'kind': kind, 'date': d.isoformat(), 'date_pad': draw(st.sampled_from(['', '', '', ' ', '  '])), 'date_tail': draw(st.sampled_from(['', '', '', '', '', '', ' Wed', ' 99', ' x y'])), 'unpadded': draw(st.booleans()), 'cents': cents, 'sub': sub, 'style': draw(amount_style),
          'desc': draw(st.one_of(st.sampled_from(DESC_TEXT), st.sampled_from(DESC_TEXT), st.sampled_from(DESC_TEXT), FREE_TEXT)), 'customs': {c: draw(st.sampled_from(DESC_TEXT + ['', ' ', 'WIRE', 'ACH-OUT'])) for c in lay['cols'] if c in CUSTOM_NAMES},
          'loc': draw(st.sampled_from(['', 'WA', 'Seattle, WA', ' NY '])), 'skip': draw(st.sampled_from(['', 'x', '1,5', 'ignored "q"']))}
     if kind == 'short':
@@ -216,7 +216,7 @@ def build(case):
         customs = {k: ('' if r['kind'] == 'empty_desc' else clean_for_dialect(v, dialect)) for k, v in r['customs'].items()}
         for c in lay['cols']:
             if c == 'date':
-                cells.append(r['bad'] if r['kind'] == 'bad_date' else r.get('date_pad', '') + date_cell(r, lay['datefmt']) + r.get('date_pad', ''))
+                cells.append(r['bad'] if r['kind'] == 'bad_date' else r.get('date_pad', '') + date_cell(r, lay['datefmt']) + r.get('date_tail', '') + r.get('date_pad', ''))
             elif c == 'amount':
                 cells.append(r['bad'] if r['kind'] == 'bad_amount' else amt_text)
             elif c == 'description':
@@ -237,6 +237,13 @@ def build(case):
         # ---- expectation by construction
         good = r['kind'] in ('good', 'long', 'empty_desc') or (r['kind'] == 'short' and r['cut'] > max_needed and dialect != 'regex')
         row_date = date.fromisoformat(r['date'])
+        if r['kind'] != 'bad_date' and r.get('date_tail'):
+            # text after the date inside the date cell ("01/15/2025 Wed"): a format without blanks reads the first word; a format WITH blanks must match the whole cell
+            cell = (date_cell(r, lay['datefmt']) + r['date_tail']).strip()
+            try:
+                row_date = datetime.strptime(cell.split()[0] if ' ' not in lay['datefmt'] else cell, lay['datefmt']).date()
+            except (ValueError, IndexError):
+                good = False
         if r['kind'] == 'bad_date':
             # "a date matching the date format": the format language is strptime's, so a generated odd spelling is bad iff strptime rejects it;
             # a spelling that happens to be a date in this format makes the row well-formed with that date
